@@ -1824,6 +1824,23 @@ class Interp:
                     nxt += self.construct(e, s, fr, target)
                 elif e['k'] == 'ExprWithCleanups' and e['c'][0]['k'] in ('CXXConstructExpr',):
                     nxt += self.construct(e['c'][0], s, fr, target)
+                elif e['k'] == 'InitListExpr' and 'field' in ini and not e.get('c'):
+                    # member{}: value-initialisation; an array of scalars becomes all zeros
+                    ft_ = None
+                    for r_ in self.prog.records.values():
+                        for x_ in r_['fields']:
+                            if x_['d'][2:] == target[1][-1]:
+                                ft_ = self.T(x_['t'])
+                    if ft_ and ft_.get('k') == 'array' and ft_.get('n') and ft_['n'] <= 4096 and (self.T(ft_.get('el')) or {}).get('k') in ('int', 'bool', 'enum'):
+                        for i_ in range(ft_['n']):
+                            s.mem[(target[0], target[1] + (i_,))] = C(0)
+                    elif ft_ and ft_.get('k') in ('int', 'bool', 'enum'):
+                        s.mem[target] = C(0)
+                    elif ft_ and ft_.get('k') == 'ptr':
+                        s.mem[target] = NULL
+                    else:
+                        s.mem[target] = ('opaque', 'initlist')
+                    nxt.append(s)
                 else:
                     for s2, v in self.ev(e, s, fr):
                         if 'field' in ini:
